@@ -104,7 +104,9 @@ func (f *DocumentTitleMatch) Process(doc *webdoc.TextDocument) bool {
 		text := tb.Text
 		text = strings.ReplaceAll(text, string('\u00a0'), " ")
 		text = strings.ReplaceAll(text, "'", "")
-		text = strings.TrimSpace(text)
+		// The titles are normalised text, while the text of a block has the
+		// white space of the page (line breaks, several blanks).
+		text = strings.Join(strings.Fields(text), " ")
 		text = strings.ToLower(text)
 		if _, exist := f.potentialTitles[text]; exist {
 			tb.AddLabels(label.Title)
@@ -126,7 +128,7 @@ func (f *DocumentTitleMatch) Process(doc *webdoc.TextDocument) bool {
 func (f *DocumentTitleMatch) processPotentialTitle(title string) {
 	title = strings.ReplaceAll(title, string('\u00a0'), " ")
 	title = strings.ReplaceAll(title, "'", "")
-	title = strings.TrimSpace(title)
+	title = strings.Join(strings.Fields(title), " ")
 	title = strings.ToLower(title)
 	if title == "" {
 		return
